@@ -73,6 +73,12 @@ class ErrWalk:
                 _, text, truth, nid = it
                 if not isinstance(truth, bool):
                     continue
+                # one spelling: `(K != X)` is the negation of `(K == X)`
+                _m = re.fullmatch(r"\((-?\d+) != (.+)\)", text)
+                if _m and _m.group(1) != "0":
+                    text, truth = f"({_m.group(1)} == {_m.group(2)})", not truth
+                elif _m and call_name(_m.group(2)) in self.ret_values:
+                    text, truth = f"(0 == {_m.group(2)})", not truth
                 if text == "PyErr_Occurred()":
                     err = "set" if truth else "clear"
                     continue
@@ -343,7 +349,8 @@ def propagate(ctx, res):
                 raise AnalysisError(f"no compound arm for kind {kind}")
             n = 0
             for atoms, effects, outcome, lines in rows:
-                failed = any(t == f"(0 == {conv})" and truth
+                failed = any((t == f"(0 == {conv})" and truth)
+                             or (t == f"(0 != {conv})" and truth is False)
                              for t, truth in atoms)
                 if not failed:
                     continue
